@@ -888,8 +888,28 @@ func (fc *FnCtx) execRecv(x *ssa.UnOp, ch Val) error {
 		return nil
 	}
 	fc.setComp("CN.recvd", arraySort("Int"), sto(recvd, ch.T, mkAdd(sel(recvd, ch.T), "1")))
+	fc.noteRecv(ch, v, "true")
 	fc.env[x] = v
 	return nil
+}
+
+// ghLastRecv: the last value this goroutine received from a channel (reference-typed elements only). It is volatile:
+// every modular call and every loop that receives havocs it, and it is outside every frame.
+const ghLastRecv = "GH.lastrecv"
+
+func (fc *FnCtx) noteRecv(ch, v Val, guard string) {
+	if v.S != SInt || v.Tup != nil || v.Loc != nil {
+		return
+	}
+	lr := fc.ghArr(ghLastRecv)
+	fc.setComp(ghLastRecv, arraySort("Int"), mkIte(guard, sto(lr, ch.T, v.T), lr))
+}
+
+func (fc *FnCtx) havocLastRecv() {
+	if _, ok := fc.cur.sorts[ghLastRecv]; !ok {
+		return
+	}
+	fc.cur.heap[ghLastRecv] = fc.vc.fresh("H."+ghLastRecv, arraySort("Int"))
 }
 
 func (fc *FnCtx) execSelect(x *ssa.Select) error {
@@ -915,7 +935,9 @@ func (fc *FnCtx) execSelect(x *ssa.Select) error {
 			fc.chanSend(ch, v, mkEq(idx, fmt.Sprintf("%d", i)))
 		} else {
 			ct := ch.Typ.Underlying().(*types.Chan)
-			tup = append(tup, fc.symbolic(fmt.Sprintf("%s.r%d", fc.name(x), i), ct.Elem()))
+			rv := fc.symbolic(fmt.Sprintf("%s.r%d", fc.name(x), i), ct.Elem())
+			fc.noteRecv(ch, rv, mkEq(idx, fmt.Sprintf("%d", i)))
+			tup = append(tup, rv)
 		}
 	}
 	fc.env[x] = Val{Typ: x.Type(), Tup: tup}
